@@ -207,14 +207,21 @@ def instrument_engine(engine, coop: Coop) -> None:
         hwl.tick = tick
 
 
-def run_schedule(coop: Coop, choices: str, workers: dict[str, Callable[[], Any]]) -> str:
+def run_schedule(coop: Coop, choices: str, workers: dict[str, Callable[[], Any]]) -> tuple[str, list[list[str]]]:
     """Run the workers under the given choice string.  "T"/"R" = let that worker run one segment; a lower-case
     letter = let that worker run until it is done or has to wait for the lock.  A choice that is not enabled is
     skipped; when the string is exhausted the remaining segments run in the fixed order T, then R.
-    Returns the choices actually made (upper-case, one per segment) — the canonical, replayable schedule."""
+    Returns (the choices actually made — upper-case, one per segment: the canonical, replayable schedule —,
+             the set of enabled workers at each of those decisions)."""
     global ACTIVE
     ACTIVE = coop
-    made = []
+    made: list[str] = []
+    enabled_log: list[list[str]] = []
+
+    def go(name: str) -> None:
+        enabled_log.append([n for n in workers if coop.enabled(n)])
+        made.append(name)
+        coop.step(name)
     try:
         for name, fn in workers.items():
             coop.spawn(name, fn)
@@ -224,63 +231,37 @@ def run_schedule(coop: Coop, choices: str, workers: dict[str, Callable[[], Any]]
                 continue
             if ch.isupper():
                 if coop.enabled(name):
-                    made.append(name)
-                    coop.step(name)
+                    go(name)
             else:
                 while coop.enabled(name):
-                    made.append(name)
-                    coop.step(name)
+                    go(name)
         while True:
             en = [n for n in workers if coop.enabled(n)]
             if not en:
                 break
-            made.append(en[0])
-            coop.step(en[0])
+            go(en[0])
         if not all(coop.done(n) for n in workers):
             raise RuntimeError(f"deadlock: {coop.at} waiting {list(coop.waiting_lock)}")
         coop.join()
     finally:
         ACTIVE = None
-    return "".join(made)
+    return "".join(made), enabled_log
 
 
-def enumerate_schedules(make_workers: Callable[[], tuple[Coop, dict[str, Callable[[], Any]], Callable[[], None]]],
-                        limit: int | None = None) -> list[str]:
-    """All maximal choice strings over {"T","R"}: DFS over the choices the *real* run has enabled (a thread waiting
-    for the lock is not enabled).  `make_workers()` -> (coop, workers, cleanup) builds a fresh scenario."""
-    global ACTIVE
+def explore_all(run_one: Callable[[str], tuple[str, list[list[str]]]], limit: int | None = None) -> list[str]:
+    """Every maximal schedule exactly once (stateless search): run a prefix and continue with the default order;
+    wherever another worker was enabled beyond the prefix, queue prefix-so-far + that worker.
+    `run_one(choices)` executes one fresh scenario and returns what `run_schedule` returns."""
     out: list[str] = []
-
-    def enabled_after(prefix: str) -> list[str]:
-        global ACTIVE
-        coop, workers, cleanup = make_workers()
-        ACTIVE = coop
-        try:
-            for name, fn in workers.items():
-                coop.spawn(name, fn)
-            for ch in prefix:
-                coop.step(ch)
-            en = [n for n in workers if coop.enabled(n)]
-            # drain so the threads end
-            while True:
-                e2 = [n for n in workers if coop.enabled(n)]
-                if not e2:
-                    break
-                coop.step(e2[0])
-            coop.join()
-            return en
-        finally:
-            ACTIVE = None
-            cleanup()
-
-    def dfs(prefix: str) -> None:
+    stack = [""]
+    while stack:
         if limit is not None and len(out) >= limit:
-            return
-        en = enabled_after(prefix)
-        if not en:
-            out.append(prefix)
-            return
-        for n in en:
-            dfs(prefix + n)
-    dfs("")
+            break
+        prefix = stack.pop()
+        made, en = run_one(prefix)
+        out.append(made)
+        for i in range(len(made) - 1, len(prefix) - 1, -1):
+            for alt in en[i]:
+                if alt != made[i]:
+                    stack.append(made[:i] + alt)
     return out
